@@ -1,4 +1,4 @@
-import os, sys, base64, codecs, resource
+import os, re, sys, base64, codecs, resource
 import vf
 from vf import Check, Stream, hexs
 # the extracted reference functions recurse once per list element: 270 000 characters of base64 need more than 8 MB of stack
@@ -58,7 +58,7 @@ class C18(Check):
     extracted = ['coq/Codec/model.mli', 'coq/Codec/model.ml', 'ocaml/zconv.ml', 'ocaml/codec_driver.ml']
     harness_sources = ['harness/codec.cpp']
     technique = 'machine-checked proof (Coq 8.16) about an executable model + differential correspondence under ASan/UBSan'
-    level_text = ('26 theorems in Coq (Properties_C18.v, all closed under the global context) about an executable model of the codecs. '
+    level_text = ('35 theorems in Coq (Properties_C18.v, all closed under the global context) about an executable model of the codecs. '
                   'UTF-8: for every code point 0 <= cp < 0x110000 (all 1,114,112, by range with lia/bit lemmas, no sweep) toString cp is '
                   'the RFC 3629 layout, fromString(toString cp) = cp and isValid accepts it (utf8_roundtrip, utf8_text_roundtrip for '
                   'sequences); surrogates D800..DFFF are laid out as ordinary 3-byte sequences - the code excludes nothing '
@@ -67,7 +67,18 @@ class C18(Check):
                   'fromString and isValid never fail a checked read for any list, isValid equals layout validity, a lead '
                   'byte announcing more than the range holds gives 0 without a further read, length() is the lead-byte table '
                   '(utf8_readers_in_bounds, utf8_from_string_never_fails, utf8_is_valid_never_fails, utf8_from_string_truncated, '
-                  'utf8_is_valid_accepts_text). Integers: print = the canonical decimal text of the cast argument, parse of the '
+                  'utf8_is_valid_accepts_text); what the reference DEMANDS is narrower where the text is silent: isValid must accept strict '
+                  'UTF-8 text (encodings of scalar values, no surrogates) and reject bytes that are not lead byte + announced continuation '
+                  'bytes (utf8_is_valid_accepts_strict_text), length() must be the length of the encoding on the 179 bytes some encoding '
+                  'starts with - and these are exactly 00..7F, C2..F4 (utf8_length_of_lead_bytes); on the other 77 bytes its value is a model fact. '
+                  'Strings that do not own their bytes (String::attach): the String overloads of fromString/isValid, as repaired by '
+                  'fixes/C18/02, are the pointer overloads on the window, so the bounds theorems apply to them; as found they went through '
+                  'the C-string view, which reads the byte BEHIND the window - out of bounds for every window whose allocation ends there '
+                  '(string_overloads_as_found_refuted, string_overloads_as_found_partial); the same for String::fromBase64 on an attached input, '
+                  'repaired by fixes/C18/03 (base64_attached_as_found_refuted, base64_attached_as_found_partial). toInt/toUInt/toInt64/toUInt64 on an attached String '
+                  'with one readable byte behind the window return what the window alone stands for, whatever that byte and the bytes after it '
+                  'are (attached_conversions_see_the_window_only, attached_conversions_equal_owned); without such a byte the view itself is the '
+                  'out-of-bounds read (attached_conversions_need_a_readable_byte) - a precondition, see assumptions. Integers: print = the canonical decimal text of the cast argument, parse of the '
                   'canonical text of any in-range value = that value, parse(print v) = v over the full range of int, uint, int64, '
                   'uint64 and = the C cast of v outside (integer_prints_canonical, integer_parses_canonical, '
                   'integer_roundtrips_in_range, integer_roundtrips_cast). The parsers on EVERY byte string (modelled libc): run as checked-read '
@@ -83,8 +94,15 @@ class C18(Check):
                   'the code as found leaves the table on byte 0x80 (base64_as_found_refuted). Tables (base64 decode table, hex digits, '
                   'UTF-8 offsets) are regenerated from the source on every run (element widths included; strict translator). The model is tied to the code by running the extracted '
                   'model, the extracted reference (RFC layouts, canonical decimal text) and the ASan/UBSan build of the working tree on '
-                  'the same inputs with exactly sized heap buffers; fromString and isValid are driven through both the pointer and '
-                  'the String overloads.')
+                  'the same inputs with exactly sized heap buffers; fromString and isValid are driven through the pointer overloads, the '
+                  'String overloads on an owning String and the String overloads on a String attached to an exactly sized block. '
+                  'TIERS: exhaustive in BOTH tiers are all byte strings of length <= 2 through the pointer and owning-String overloads of both readers, '
+                  'every window of length <= 1 through the attached overloads, length() on all 256 bytes, all base64 strings of length <= 4 over a '
+                  '12-symbol alphabet and the 256-value sweeps of one base64 position. Exhaustive in the THOROUGH tier ONLY: all 1,114,112 code points '
+                  '(quick: range edges +-2, 0..0x8ff, stride 251, 3000 random ones - a change hitting a few hundred code points away from the edges '
+                  'is found in quick only by luck), all byte strings of length 3 (quick: class alphabet), every string over {space + - 0 1 9 x} up to '
+                  'length 5 through the four parsers (quick: length 3 + 450 samples). evidence/C18.json is written by whichever tier ran last; its '
+                  '"tier" field and the per-stream "exhaustive" flags say which.')
     level_note = ('PARTIAL: libc formatting and parsing (vsnprintf %d %u %lld %llu; atoi, strtoul, atoll, strtoull of glibc on LP64) are '
                   'MODELLED as reference decimal functions (digit loop; white space, sign, longest digit prefix, clamp to 64 bit, cast) - '
                   'the integer theorems are about that model (trusted) and the tie for it is boundary/random differential testing only. '
@@ -94,12 +112,24 @@ class C18(Check):
                   'like this model is the trusted part, tied by the exhaustive small-scope stream int_forms (alphabet {space + - 0 1 9 x}, '
                   'length <= 5 in the thorough tier) and the boundary list of int_text; the reference (CodecSpec.ref_value) still leaves '
                   'non-canonical text open, so a difference there is reported as a model/implementation difference. Behaviour validated by '
-                  'correspondence only (modelled, no theorem): fromBase64 results on strings that are not RFC 4648 encodings (only '
+                  'correspondence only (modelled, no theorem): the value of Unicode::length on bytes that start no encoding (80..C1, F5..FF; the '
+                  'reference prints `?`), isValid on text with encoded surrogates, overlong forms or values above U+10FFFF (`?`), fromBase64 results on strings that are not RFC 4648 encodings (only '
                   'bounds-safety is proved for them). isValid is proved equal to layout validity (lead byte + announced number of '
                   'continuation bytes): it accepts overlong forms, surrogates and values above U+10FFFF, which the property text '
                   'leaves open. The theorems are about the model; the tie to the code is differential: all 1,114,112 code points '
                   'and all byte strings of length <= 3 for the readers in the thorough tier (length <= 2 + class-alphabet sweeps in '
-                  'quick), 4-character base64 strings with one position over all 256 byte values. Trusted: Coq kernel, CodecSpec.v '
+                  'quick), 4-character base64 strings with one position over all 256 byte values. LENGTHS reached by the tie: UTF-8 readers on '
+                  'mostly-ASCII text of every length 56..73 and around 96, 128, 192, 256, 300, 512 bytes plus 65531..70001 bytes (thorough: 56..139, '
+                  'around 1024 and 4096, up to 200003), fromHex up to 65537 bytes (thorough 200000), fromBase64 on encodings of up to 90000 bytes '
+                  '(thorough 200000; sizes straddling 2^8 and 2^16 of the input and of the output index), toString(data, size) up to 5000 code points '
+                  '(thorough 70000). For inputs longer than 1536 bytes the model column the driver prints is the closed form that a theorem proves '
+                  'equal to the model function for every input (is_valid = layout_valid: utf8_is_valid_never_fails; from_hex = upper_hex: '
+                  'hex_is_upper_hex; from_base64 of an RFC 4648 encoding = its preimage: base64_decodes_every_rfc4648_text) - the list-indexing model '
+                  'itself is worse than quadratic in the length (30000 bytes of base64: 9 minutes); long strings that are not encodings are therefore '
+                  'not generated beyond 1536 bytes. Not observed: the bool result of Unicode::append and appending to a non-empty String (the text '
+                  'speaks of toString; the harness calls toString(ch) and toString(data, size) only); toDouble/fromDouble; Strings made by the '
+                  'literal constructor. Attached Strings are driven with (a) nothing behind the window for the Unicode overloads and (b) at least '
+                  'one readable byte behind it for the integer conversions; fromBase64 on attached Strings with both. Trusted: Coq kernel, CodecSpec.v '
                   '(RFC 3629 / RFC 4648 / decimal transcription, guarded by known-answer Examples), extraction + OCaml driver, harness, '
                   'table translator (strict: gen/tables.py refuses whatever it cannot read unambiguously; self-test tools/test_tables.py).')
     rule = ('one case = a batch of independent codec calls (u8rt/u8enc/u8dec/u8valid/u8len/u8sw, hex, b64/b64sw, from*/to*/rt* for the four '
@@ -113,11 +143,21 @@ class C18(Check):
             'multi-digit / multi-group path (code point >= 0x80, reader input with a byte >= 0x80, any sweep, base64 input of a non-zero '
             'multiple of 4 characters, |integer| >= 10, non-empty hex input); u8rt/u8dec/u8valid print the reader results twice '
             '(pointer overload on an exactly sized heap copy, then the String overload); hex inputs include 63, 64, 65, 300 and '
-            '5000 bytes; distinct = distinct op text')
+            '5000 bytes; round 5: u8deca/u8valida <window> <tail> = the String overloads on a String attached to the window of one exactly sized '
+            'block window ++ tail, to<type>a <window> <tail> = the member conversions on such a String; streams readers_long (63..513-byte and '
+            '65531..70001-byte text, the non-ASCII / truncated / impossible part at the start, in the middle, at the very end), readers_attached, '
+            'b64_attached (b64a <window> <tail>: fromBase64 on an attached String), long_inputs (hex, base64, toString(data,size) at sizes around 2^7, 2^8, 2^13, 2^15, 2^16), int_attached (digits, NUL, white space '
+            'right behind the window); distinct = distinct op text')
     assumptions = ['glibc on LP64 for the integer conversions: printf %d/%u/%lld/%llu print canonical decimal text; strtol/strtoul/strtoll/'
                    'strtoull skip white space, take an optional sign and the longest digit prefix, clamp to 64 bit (modelled, not proved of libc)',
                    'char is signed 8 bit, uint32 arithmetic wraps modulo 2^32 (x86-64 ABI)',
                    'fromBase64 is modelled after fixes/C18/01-base64-unsigned-compare.patch; on a tree without it base64_in_bounds is false (witness corpus/C18/base64-high-byte.ops)',
+                   'the String overloads of Unicode::fromString / isValid are modelled after fixes/C18/02-unicode-string-overloads-attached.patch '
+                   '(committed 3e3ed1e) and String::fromBase64 after fixes/C18/03-frombase64-attached-input.patch; on a tree without them they read the byte '
+                   'behind an attached window (witness corpus/C18/attached-string-overloads.ops)',
+                   'PRECONDITION for toInt/toUInt/toInt64/toUInt64 on a String made by attach(p, n): p[n] is readable. String::operator const char*() looks at '
+                   'that byte to decide whether to copy; the property text promises exactness, not bounds-safety, for the integer conversions, and exactness '
+                   'holds whatever the byte is (attached_conversions_see_the_window_only). The same precondition is carried by C06 and C02',
                    'RFC 3629 / RFC 4648 / canonical decimal transcription in coq/Codec/CodecSpec.v']
 
     def gen_tables(self):
@@ -166,7 +206,7 @@ class C18(Check):
                     return True
             elif o in ('u8sw', 'b64sw'):
                 return True
-            elif o in ('b64', 'b64raw'):
+            elif o in ('b64', 'b64raw', 'b64a'):
                 if a != '-' and (len(a) // 2) % 4 == 0:
                     return True
             elif o == 'hex':
@@ -197,8 +237,50 @@ class C18(Check):
                         what = ('fromString' if n < 256 else 'isValid') if op == 'u8sw' else 'fromBase64'
                         where = ' [%s on bytes %s%02x%s: reference %s, implementation %s]' % (what, pre, n % 256, suf, a, b)
                         break
+            if not where and op in ('hex', 'b64', 'u8encn') and k < len(impl_obs[i]) and k < len(spec_obs[i]):
+                a, b = spec_obs[i][k].split(' ')[0], impl_obs[i][k].split(' ')[0]
+                if a not in ('?', '!') and b != '!' and len(a) + len(b) > 120:
+                    a, b = ('' if a == '-' else a), ('' if b == '-' else b)
+                    d = next((j for j in range(0, min(len(a), len(b)), 2) if a[j:j + 2] != b[j:j + 2]), min(len(a), len(b)))
+                    where = ' [result of %d bytes expected, %d bytes returned; first difference at byte %d: reference %s, implementation %s]' % (
+                        len(a) // 2, len(b) // 2, d // 2, a[d:d + 2] or '<end>', b[d:d + 2] or '<end>')
+            reason = re.sub(r'[0-9a-f]{97,}', lambda m: '%s..(%d bytes)' % (m.group(0)[:32], len(m.group(0)) // 2), reason)
             fails.append((i, k, ('%-90s' % ('call %s: the implementation differs from the reference;' % op)) + where + ' ' + reason[:600]))
+        fails.sort(key=lambda f: sum(len(l) for l in cases[f[0]]))
         return fails
+
+    # ---- witnesses: after the line-level ddmin of vf, shorten the byte strings of a single remaining call ---------------
+    def shrink(self, case, pred, budget=400):
+        small = Check.shrink(self, case, pred, budget) if len(case) > 1 else case
+        if len(small) != 1:
+            return small
+        t = small[0].split(' ')
+        calls = 0
+        for ai in range(1, len(t)):
+            if len(t[ai]) < 32 or any(c not in '0123456789abcdef' for c in t[ai]):
+                continue
+            unit = 8 if t[0].startswith('b64') else 2          # whole 4-character groups for base64 text
+            cur = t[ai]
+            size = (len(cur) // unit) // 2
+            while size >= 1 and calls < 48:
+                pos, changed = 0, False
+                while pos < len(cur) and calls < 48:
+                    cand = cur[:pos] + cur[pos + size * unit:]
+                    if cand != cur:
+                        t2 = list(t); t2[ai] = cand or '-'
+                        calls += 1
+                        if pred([' '.join(t2)]):
+                            cur, changed = cand, True
+                            continue
+                    pos += size * unit
+                if not changed or size == 1:
+                    size //= 2
+                else:
+                    size = min(size, (len(cur) // unit) // 2) or 1
+                    if size == 1 and len(cur) // unit <= 1:
+                        break
+            t[ai] = cur or '-'
+        return [' '.join(t)]
 
     # ---- generators ----------------------------------------------------------------------
     def utf8_text(self, rng, n):
@@ -461,21 +543,42 @@ class C18(Check):
                                'length <= 1, class alphabet^2, lead bytes x classes for length 3 with nothing behind the window; windows cut inside a '
                                'sequence with the missing bytes (or NUL, continuation bytes, another character) right behind them'))
 
+        # -- fromBase64 on attached Strings: encodings and malformed strings, nothing / padding / alphabet characters behind the window ----
+        ops = []
+        for n in list(range(0, 14)) + [30, 31, 32, 33, 100, 191, 192, 193]:
+            e = b64enc(bytes((i * 37 + n) & 0xff for i in range(n)))
+            ops.append('b64a %s -' % hexs(e))
+            ops.append('b64a %s %s' % (hexs(e), hexs(rng.choice([b'=', b'A', b'\x00', b'QUJD', b'\xff', b'==']))))
+        for _ in range(1200 if thorough else 200):
+            e = bytearray(b64enc(bytes(rng.randrange(256) for _ in range(rng.randrange(1, 16)))))
+            r = rng.random()
+            if r < 0.35:
+                e[rng.randrange(len(e))] = rng.choice([0x3d, 0x7b, 0x20, 0x00, 0x80, 0xff, 0x2d])
+            elif r < 0.7:
+                k = rng.randrange(len(e) + 1)                # window = a prefix of the encoding, the rest lies right behind it
+                ops.append('b64a %s %s' % (hexs(e[:k]), hexs(e[k:])))
+                continue
+            ops.append('b64a %s %s' % (hexs(e), hexs(rng.choice([b'', b'', b'=', b'A', b'\x00']))))
+        out.append(Stream('b64_attached', chunk(ops, 40),
+                          note='fromBase64 on a String attached to a window of an exactly sized block: RFC 4648 encodings of 0..13, 30..33, 100, 191..193 bytes and '
+                               'mutated encodings with nothing behind the window, with padding / alphabet characters / NUL behind it, and windows that are a '
+                               'prefix of an encoding whose rest follows'))
+
         # -- hex / base64 / toString(data, size) at sizes around 2^7, 2^8, 2^13, 2^15, 2^16 (index or length kept in a narrower type) ----
         ops = []
         for n in [127, 128, 129, 255, 256, 257, 8191, 8192, 8193, 32767, 32768, 32769, 65535, 65536, 65537] + ([100000, 200000] if thorough else []):
             ops.append('hex ' + hexs(bytes((i * 37 + n + (i >> 8)) & 0xff for i in range(n))))
         ops.append('hex ' + hexs(bytes(rng.randrange(256) for _ in range(rng.randrange(8193, 20000)))))
-        for n in [190, 191, 192, 193, 49150, 49151, 49152, 49153, 65534, 65535, 65536, 65537, 70000] + ([98304, 99999, 200000] if thorough else []):
+        for n in [191, 192, 193, 49151, 49152, 49153, 65535, 65536, 65537] + ([190, 49150, 65534, 70000, 98304, 99999, 200000] if thorough else []):
             ops.append('b64 ' + hexs(b64enc(bytes((i * 37 + n + (i >> 8)) & 0xff for i in range(n)))))
         ops.append('b64 ' + hexs(b64enc(bytes(rng.randrange(256) for _ in range(rng.randrange(65536, 90000))))))
         for n in [64, 70, 199, 200, 201, 300, 1000] + ([20000, 70000] if thorough else [5000]):
             ops.append('u8encn ' + ','.join(map(str, self.utf8_text(rng, n))))
         ops.append('u8encn ' + ','.join(str(0x10000 + (i * 4099) % 0x100000) for i in range(300)))   # 4-byte sequences only: 1200 bytes into a String reserved for 500
-        out.append(Stream('long_inputs', chunk(ops, 1),
-                          note='fromHex of 127..65537 bytes (8191/8192/8193, 2^15+-1, 2^16+-1%s), fromBase64 of the RFC 4648 encodings of 190..70000 bytes (input '
-                               'length around 2^8 and 2^16: 49150..49153 bytes; output length around 2^16: 65534..65537 bytes%s), toString(data, size) of 64..%d code '
-                               'points (beyond the size+200 bytes it reserves)' % ((', 100000, 200000', ', 98304, 99999, 200000', 70000) if thorough else ('', '', 5000))))
+        out.append(Stream('long_inputs', chunk(ops, 2),
+                          note='fromHex of 127..65537 bytes (8191/8192/8193, 2^15+-1, 2^16+-1%s), fromBase64 of the RFC 4648 encodings of 191..90000 bytes (input '
+                               'length around 2^8 and 2^16: 191..193 and 49151..49153 bytes; output length around 2^16: 65535..65537 bytes%s), toString(data, size) of 64..%d code '
+                               'points (beyond the size+200 bytes it reserves)' % ((', 100000, 200000', '; 98304, 99999, 200000', 70000) if thorough else ('', '', 5000))))
 
         # -- the member conversions on attached Strings: the digits go on right behind the window ---------------------------
         ops = []
